@@ -4,8 +4,8 @@
 # against it, and files it under /verif/seeded/<ID>-<k>/ with meta.json.
 ID=$1; K=$2; shift 2
 cd "$(dirname "$0")/.." || exit 2
-SRC=/tmp/wt/$ID
-D=seeded/$ID-$K
+SRC=${SRCROOT:-/tmp/wt}/$ID
+D=seeded/$ID-${OUTK:-$K}
 mkdir -p "$D"
 cp "$SRC/patch$K.diff" "$D/patch.diff"
 cp "$SRC/demo${K}_test.go.txt" "$D/demo_test.go.txt"
